@@ -1160,6 +1160,8 @@ func checkSetNode(w *World, r *Report) {
 	checkNoVariableRemoval(w, r)
 	checkLoopAlwaysBound(w, r)
 	checkAttributeNamesNotSpecialCased(w, r)
+	checkLoopSequenceIsEvaluated(w, r)
+	checkLiteralsAreFresh(w, r)
 	fn := w.ssaFunc(w.method("SetNode", "Render"))
 	setVar := w.method("RenderContext", "SetVariable")
 	evalM := w.method("RenderContext", "EvaluateExpression")
@@ -1972,4 +1974,196 @@ func rendersParam(g *ssa.Function, p *ssa.Parameter) bool {
 		}
 	})
 	return found
+}
+
+// checkLoopSequenceIsEvaluated — R09.15: what a for loop iterates over is what its sequence
+// expression evaluates to.  Every call of the loop renderer (the function that renders
+// ForNode.body per element) from the for node's Render hands it a computed value on every edge —
+// never the constant nil: "the base is null, so there is nothing to iterate" skips the filters
+// that would have supplied a value (`missing|default([...])`).
+func checkLoopSequenceIsEvaluated(w *World, r *Report) {
+	render := w.ssaFunc(w.method("ForNode", "Render"))
+	n := 0
+	var scan func(fn *ssa.Function, depth int)
+	seenFn := map[*ssa.Function]bool{}
+	scan = func(fn *ssa.Function, depth int) {
+		if fn == nil || seenFn[fn] || depth > 2 {
+			return
+		}
+		seenFn[fn] = true
+		instrsOf(fn, func(in ssa.Instruction) {
+			c, ok := in.(ssa.CallInstruction)
+			if !ok {
+				return
+			}
+			g := c.Common().StaticCallee()
+			if g == nil || !isTwigFn(g) || g.Signature.Recv() == nil || !isNamed(deref(g.Signature.Recv().Type()), twigPath, "ForNode") || g == fn {
+				return
+			}
+			// the sequence parameter: the interface{} one
+			for i, p := range g.Params {
+				it, isI := p.Type().Underlying().(*types.Interface)
+				if !isI || it.NumMethods() != 0 || i >= len(c.Common().Args) {
+					continue
+				}
+				n++
+				construct := "sequence handed to " + g.Name()
+				bad := false
+				var walk func(v ssa.Value, seen map[ssa.Value]bool)
+				walk = func(v ssa.Value, seen map[ssa.Value]bool) {
+					v = unspill(v)
+					if seen[v] {
+						return
+					}
+					seen[v] = true
+					if isNilConst(v) {
+						bad = true
+					}
+					if ph, ok := v.(*ssa.Phi); ok {
+						for _, e := range ph.Edges {
+							walk(e, seen)
+						}
+					}
+				}
+				walk(c.Common().Args[i], map[ssa.Value]bool{})
+				if bad {
+					r.bad("R09.15", ssaName(fn), construct, w.posOf(in.Pos()), "on some path the loop is handed the constant nil instead of the value of its sequence expression: the sequence (or the rest of its filter chain) is not evaluated there, so a filter that would have supplied the elements — default, merge — never runs and the else branch is taken")
+				} else {
+					r.ok("R09.15", ssaName(fn), construct, w.posOf(in.Pos()), "a computed value on every edge", true)
+				}
+			}
+			scan(g, depth+1)
+		})
+	}
+	scan(render, 0)
+	r.floor("hand-overs of a sequence to the loop renderer", n, 1)
+}
+
+// checkLiteralsAreFresh — R09.16: a list or hash literal is a new value each time it is
+// evaluated.  In the arms of EvaluateExpression for ArrayNode and HashNode every returned
+// container is allocated in that evaluation (make / literal / append to such), never read back
+// from a field, a map or a pool: `{% set a = [i] %}` in one iteration must not be rewritten by
+// the evaluation of the same literal in the next.
+func checkLiteralsAreFresh(w *World, r *Report) {
+	eval := w.ssaFunc(w.method("RenderContext", "EvaluateExpression"))
+	f := &freshness{w: w, retMemo: map[*ssa.Function]int{}}
+	n := 0
+	for _, tn := range []string{"ArrayNode", "HashNode"} {
+		nt := w.named(tn)
+		if nt == nil {
+			continue
+		}
+		instrsOf(eval, func(in ssa.Instruction) {
+			ta, ok := in.(*ssa.TypeAssert)
+			if !ok || !ta.CommaOk || !types.Identical(deref(ta.AssertedType), nt) {
+				return
+			}
+			if _, isP := unspill(ta.X).(*ssa.Parameter); !isP {
+				return
+			}
+			// the arm: blocks dominated by the ok edge
+			var arm *ssa.BasicBlock
+			for _, ref := range *ta.Referrers() {
+				ex, ok := ref.(*ssa.Extract)
+				if !ok || ex.Index != 1 || ex.Referrers() == nil {
+					continue
+				}
+				for _, r2 := range *ex.Referrers() {
+					if iff, ok := r2.(*ssa.If); ok {
+						arm = iff.Block().Succs[0]
+					}
+				}
+			}
+			if arm == nil {
+				return
+			}
+			instrsOf(eval, func(x ssa.Instruction) {
+				ret, ok := x.(*ssa.Return)
+				if !ok || !(arm == ret.Block() || arm.Dominates(ret.Block())) {
+					return
+				}
+				res := retResults(ret)
+				if len(res) == 0 {
+					return
+				}
+				mi, ok := res[0].(*ssa.MakeInterface)
+				if !ok {
+					return
+				}
+				switch mi.X.Type().Underlying().(type) {
+				case *types.Slice, *types.Map:
+				default:
+					return
+				}
+				n++
+				construct := "value of a " + tn + " literal is a new container"
+				_ = f
+				if allocatedHere(mi.X, map[ssa.Value]bool{}, 0) {
+					r.ok("R09.16", ssaName(eval), construct, w.posOf(ret.Pos()), "allocated in this evaluation on every path", true)
+				} else {
+					r.bad("R09.16", ssaName(eval), construct, w.posOf(ret.Pos()), "the container returned for the literal is not allocated by this evaluation on every path (it is read back from a field, a map or a pool and refilled): a value bound earlier from the same literal — by set, in a previous iteration — changes under the template's feet")
+				}
+			})
+		})
+	}
+	r.floor("returns of list/hash literal values", n, 2)
+}
+
+
+// allocatedHere: v is a container created by the running call (make, a composite literal, append
+// to such, or a helper of the package every result of which is) — stricter than C18's "fresh in
+// this render", which counts everything hanging off a render context.
+func allocatedHere(v ssa.Value, seen map[ssa.Value]bool, depth int) bool {
+	v = unspill(v)
+	if seen[v] {
+		return true
+	}
+	seen[v] = true
+	if depth > 6 {
+		return false
+	}
+	switch x := v.(type) {
+	case *ssa.MakeSlice, *ssa.MakeMap:
+		return true
+	case *ssa.Const:
+		return true
+	case *ssa.Slice:
+		if _, isAlloc := x.X.(*ssa.Alloc); isAlloc {
+			return true // []T{…}
+		}
+		return allocatedHere(x.X, seen, depth)
+	case *ssa.Phi:
+		for _, e := range x.Edges {
+			if !allocatedHere(e, seen, depth) {
+				return false
+			}
+		}
+		return true
+	case *ssa.Call:
+		if b, ok := x.Call.Value.(*ssa.Builtin); ok {
+			if b.Name() == "append" {
+				return allocatedHere(x.Call.Args[0], seen, depth)
+			}
+			return false
+		}
+		g := x.Call.StaticCallee()
+		if g == nil || !isTwigFn(g) || len(g.Blocks) == 0 {
+			return false
+		}
+		ok, nret := true, 0
+		instrsOf(g, func(in ssa.Instruction) {
+			if ret, isRet := in.(*ssa.Return); isRet && len(ret.Results) > 0 {
+				nret++
+				if !allocatedHere(retResults(ret)[0], map[ssa.Value]bool{}, depth+1) {
+					ok = false
+				}
+			}
+		})
+		return ok && nret > 0
+	case *ssa.Extract:
+		if c, isCall := x.Tuple.(*ssa.Call); isCall && x.Index == 0 {
+			return allocatedHere(c, seen, depth)
+		}
+	}
+	return false
 }
